@@ -16,8 +16,8 @@ from concurrent.futures import ThreadPoolExecutor
 
 from . import BUILD, REPO, VERIF, env_offline
 
-EXT = os.path.join(VERIF, "kani", "ext")
-INCRATE = os.path.join(VERIF, "kani", "incrate")
+EXT = os.environ.get("VERIF_KANI_EXT", os.path.join(VERIF, "kani", "ext"))
+INCRATE = os.environ.get("VERIF_KANI_INC", os.path.join(VERIF, "kani", "incrate"))
 LOGS = os.path.join(BUILD, "logs")
 
 WHERE = {
@@ -27,6 +27,7 @@ WHERE = {
     "s3s-fs": os.path.join(REPO, "crates", "s3s-fs", "Cargo.toml"),
 }
 
+SLOT_BASE = 0
 _slot_lock = threading.Lock()
 _free_slots = {}
 
@@ -172,7 +173,7 @@ def run_harness(harness, where="ext", timeout=1800, mem_gb=40, nslots=4, extra=N
     slot = _acquire_slot(where, nslots)
     t0 = time.time()
     try:
-        target_dir = os.path.join(BUILD, "kani", "%s-s%d" % (where, slot))
+        target_dir = os.path.join(BUILD, "kani", "%s-s%d" % (where, slot + SLOT_BASE))
         env = env_offline({"VERIF_KANI_INC": INCRATE})
         if env_extra:
             env.update(env_extra)
@@ -248,7 +249,7 @@ def concrete_playback(harness, where, slot, env, out):
         cwd = os.path.dirname(WHERE[where])
         manifest = ["--manifest-path", WHERE[where]]
         roots = [inc]
-    target_dir = os.path.join(BUILD, "kani", "%s-pb%d" % (where, slot))
+    target_dir = os.path.join(BUILD, "kani", "%s-pb%d" % (where, slot + SLOT_BASE))
     m = re.search(r"```\s*\n(/// Test generated for harness.*?)```", out, re.S)
     if not m:
         m = re.search(r"(#\[test\]\s*\nfn kani_concrete_playback_\w+\(\).*?\n})", out, re.S)
@@ -296,7 +297,8 @@ def run_many(jobs, parallel=3):
         return []
     with ThreadPoolExecutor(max_workers=parallel) as ex:
         futs = [ex.submit(run_harness, j["harness"], j.get("where", "ext"), j.get("timeout", 1800),
-                          j.get("mem_gb", 40), max(parallel, 1), j.get("extra"), j.get("env")) for j in jobs]
+                          j.get("mem_gb", 40), max(parallel, 1), j.get("extra"), j.get("env"),
+                          j.get("playback", True)) for j in jobs]
         return [f.result() for f in futs]
 
 
